@@ -8,5 +8,4 @@ CONSTANTS
   MaxFrames = 2
 SPECIFICATION MSpec
 INVARIANT FrameAlwaysOK
-VIEW View
 CHECK_DEADLOCK FALSE
